@@ -12,6 +12,9 @@ import time
 
 HERE = os.path.dirname(os.path.dirname(os.path.abspath(__file__)))
 REPO = "/repo"
+# With --scratch the patch is applied to a scratch worktree of /repo's HEAD and the check runs against it through VERIF_REPO
+# (used while background runs read /repo itself); without it the patch is applied to /repo and reverted afterwards.
+SCRATCH = "/var/tmp/verif-seedrun"
 
 
 def sh(cmd, **kw):
@@ -25,6 +28,15 @@ def main():
         if a.startswith("--checks"):
             checks_opt = a.split("=", 1)[1].split(",") if "=" in a else None
     all_checks = "--all-checks" in sys.argv
+    global REPO
+    scratch = "--scratch" in sys.argv
+    if scratch:
+        if not os.path.isdir(SCRATCH):
+            sh(["git", "-C", "/repo", "worktree", "add", "--detach", SCRATCH, "HEAD"])
+        head = sh("git -C /repo rev-parse HEAD").stdout.strip()
+        sh(["git", "-C", SCRATCH, "checkout", "-q", "--detach", head])
+        sh(["git", "-C", SCRATCH, "checkout", "--", "."])
+        REPO = SCRATCH
     if sh("git -C %s status --porcelain --untracked-files=no" % REPO).stdout.strip():
         print("refusing: /repo has uncommitted changes")
         return 2
@@ -50,7 +62,7 @@ def main():
                     continue
                 t0 = time.time()
                 r = sh(["./check", c, "--tier", "quick"], cwd=HERE, timeout=3600,
-                       env=dict(os.environ, VERIF_EVIDENCE_DIR="/var/tmp/verif-seeded-evidence"))
+                       env=dict(os.environ, VERIF_EVIDENCE_DIR="/var/tmp/verif-seeded-evidence", **({"VERIF_REPO": SCRATCH} if scratch else {})))
                 keys = [l.split("key=", 1)[1].split(" ")[0] for l in r.stdout.splitlines() if l.strip().startswith("key=")]
                 verdict = {0: "MISSED (exit 0)", 1: "caught", 2: "inconclusive (exit 2)"}.get(r.returncode, "exit %d" % r.returncode)
                 out_lines.append("| %s | %s | %s | %s | %s | %.0fs |" % (sid, prop, c, verdict, "; ".join(keys[:4])[:160], time.time() - t0))
